@@ -702,6 +702,7 @@ fn write_evidence(tier: &str, stats: &Stats, violations: usize, wall: f64, exhau
             "the index layout (ordered segments of ordered documents) depends on thread scheduling only through the four gated seams; everything else the threads do commutes with respect to the layout (argued in DESIGN.md 2.6, cross-checked by reading layouts back from real on-disk indices)",
             "the vendored tantivy differs from the registry crate only by vendor/tantivy-gates.patch; with no controller installed the gates are no-ops",
             "worker symmetry: workers run identical code and differ only by the segment id, which G2/G4 own",
+            "nondeterminism that does not pass through the gated seams (hash-map iteration order or thread timing inside `anything` itself, e.g. in how documents are fed) is NOT enumerated: it is only observed through the independent builds of this run (every session of every execution is a fresh build; see `executions` and the sessions per scenario) and through asking every probe twice - a sampling supplement, not part of the exhaustive claim",
         ],
         "wall_s": wall,
         "violations": violations,
